@@ -180,7 +180,10 @@ def tplOf (j : Json) : Tpl :=
     applyOutcome := match str j "apply" with
       | "invalid" => .invalid
       | "error" => .error
-      | _ => .ok }
+      | _ => .ok,
+    status := match fld j "status" with
+      | .null => none
+      | s => some (vOf s) }
 
 def wJson (w : Write) : Json :=
   Json.mkObj [("verb", .str w.verb), ("target", .str w.target)]
@@ -193,7 +196,7 @@ def runCompose (scn : Json) : Json × Bool × String :=
   let r := composePT xr tpls updateFails
   let out := Json.mkObj [
     ("err", .str r.err),
-    ("rendered", Json.arr (r.rendered.map Json.bool).toArray),
+    ("synced", Json.arr (r.synced.map Json.bool).toArray),
     ("refs", Json.arr (r.refs.map fun (k, n) => Json.mkObj [("kind", .str k), ("name", .str n)]).toArray),
     ("writes", Json.arr (r.writes.map wJson).toArray),
     ("bodies", Json.arr (r.bodies.map vJson).toArray)]
